@@ -57,7 +57,7 @@ struct Run {
     stderr: String,
 }
 
-fn run(dir: &Path, args: &[&str]) -> Result<Run, Failure> {
+fn run(dir: &Path, args: &[&std::ffi::OsStr]) -> Result<Run, Failure> {
     let out = Command::new(cli())
         .current_dir(dir)
         .args(args)
@@ -78,28 +78,44 @@ pub fn check(case: &Case, ctx: &mut CaseCtx) -> CaseResult {
     let dir = PathBuf::from(VERIF_ROOT).join(format!("target/c19/tmp-{}-{n}", std::process::id()));
     std::fs::create_dir_all(&dir).map_err(|e| Failure::new("machinery", format!("{e}")))?;
     let _guard = TempDir(dir.clone());
-    let name = ["a.txt", "noext", "two.dots.tar", "with space.bin", "UPPER.DAT", ".hidden"][(case.name % 6) as usize];
+    // names: ASCII with dots / spaces / no extension / hidden, valid non-ASCII UTF-8, and bytes that
+    // are not UTF-8 at all (legal in a Unix file name)
+    const NAMES: [&[u8]; 8] = [b"a.txt", b"noext", b"two.dots.tar", b"with space.bin", b"UPPER.DAT", b".hidden", b"r\xe9sum\xe9.txt", "\u{fc}n\u{ef}.d\u{e4}t".as_bytes()];
+    use std::os::unix::ffi::{OsStrExt, OsStringExt};
+    let name_bytes: &[u8] = NAMES[(case.name % 8) as usize];
+    let name = std::ffi::OsString::from_vec(name_bytes.to_vec());
+    let name_shown = String::from_utf8_lossy(name_bytes).to_string();
+    ctx.feat_if(std::str::from_utf8(name_bytes).is_err(), "name:not_utf8");
+    ctx.feat_if(std::str::from_utf8(name_bytes).is_ok() && !name_bytes.is_ascii(), "name:non_ascii_utf8");
     let data = case.data.render();
-    let input = dir.join(name);
+    let input = dir.join(&name);
     if case.scenario != Scenario::MissingInput {
         std::fs::write(&input, &data).map_err(|e| Failure::new("machinery", format!("{e}")))?;
     }
-    let zst_name = if case.explicit_out { "out/../archive.z".to_string() } else { format!("{name}.zst") };
+    let zst_name: std::ffi::OsString = if case.explicit_out {
+        "out/../archive.z".into()
+    } else {
+        let mut v = name_bytes.to_vec();
+        v.extend_from_slice(b".zst");
+        std::ffi::OsString::from_vec(v)
+    };
+    let zst_shown = String::from_utf8_lossy(zst_name.as_bytes()).to_string();
+    let zst_name_s = zst_shown.as_str();
     if case.explicit_out {
         std::fs::create_dir_all(dir.join("out")).ok();
     }
     let level_s;
-    let mut args: Vec<&str> = vec!["compress", name];
+    let mut args: Vec<&std::ffi::OsStr> = vec!["compress".as_ref(), name.as_os_str()];
     let out_missing_dir = "no/such/dir/x.zst";
     if case.scenario == Scenario::OutputDirMissing {
-        args.push(out_missing_dir);
+        args.push(out_missing_dir.as_ref());
     } else if case.explicit_out {
-        args.push(&zst_name);
+        args.push(zst_name.as_os_str());
     }
     if let Level::L(l) = case.level {
         level_s = l.to_string();
-        args.push("-l");
-        args.push(&level_s);
+        args.push("-l".as_ref());
+        args.push(level_s.as_ref());
     }
     let implemented = matches!(case.level, Level::Absent | Level::L(0) | Level::L(1));
     let zst_path = dir.join(&zst_name);
@@ -119,7 +135,7 @@ pub fn check(case: &Case, ctx: &mut CaseCtx) -> CaseResult {
         Scenario::MissingInput | Scenario::OutputDirMissing => {
             ensure!(r.code != Some(0), "failure_not_reported", "compress with {:?} exits 0", case.scenario);
             let left = if case.scenario == Scenario::MissingInput { zst_path.exists() } else { false };
-            ensure!(!(r.panicked && left), "panic_leaves_output", "compress with {:?} panicked and left {zst_name} behind: {}", case.scenario, tail(&r.stderr));
+            ensure!(!(r.panicked && left), "panic_leaves_output", "compress with {:?} panicked and left {zst_name_s} behind: {}", case.scenario, tail(&r.stderr));
             ctx.feat("scenario:cannot_be_carried_out");
             ctx.nontrivial = false;
             ctx.set_hash_bytes(&[format!("{case:?}").as_bytes()]);
@@ -131,7 +147,7 @@ pub fn check(case: &Case, ctx: &mut CaseCtx) -> CaseResult {
         // an operation that cannot be carried out: failure through the exit status, and not
         // "panic + an output file that looks like a result"
         ensure!(r.code != Some(0), "failure_not_reported", "compress -l {:?} exits 0", case.level);
-        ensure!(!(r.panicked && zst_path.exists()), "panic_leaves_output", "compress {:?}: the tool panicked (status {:?}) and left `{zst_name}` ({} bytes) behind: {}", case.level, r.code, std::fs::metadata(&zst_path).map(|m| m.len()).unwrap_or(0), tail(&r.stderr));
+        ensure!(!(r.panicked && zst_path.exists()), "panic_leaves_output", "compress {:?}: the tool panicked (status {:?}) and left `{zst_name_s}` ({} bytes) behind: {}", case.level, r.code, std::fs::metadata(&zst_path).map(|m| m.len()).unwrap_or(0), tail(&r.stderr));
         ctx.feat("scenario:unsupported_level_refused");
         ctx.set_hash_bytes(&[format!("{case:?}").as_bytes()]);
         return Ok(());
@@ -139,16 +155,16 @@ pub fn check(case: &Case, ctx: &mut CaseCtx) -> CaseResult {
     // implemented levels and "no level given": must work
     if r.code != Some(0) {
         let left = zst_path.exists();
-        fail!(if r.panicked && left { "panic_leaves_output" } else { "compress_failed" }, "compress {:?} of a {}-byte file fails with status {:?} (panicked: {}, `{zst_name}` left behind: {left}): {}", case.level, data.len(), r.code, r.panicked, tail(&r.stderr));
+        fail!(if r.panicked && left { "panic_leaves_output" } else { "compress_failed" }, "compress {:?} of a {}-byte file fails with status {:?} (panicked: {}, `{zst_name_s}` left behind: {left}): {}", case.level, data.len(), r.code, r.panicked, tail(&r.stderr));
     }
-    let archive = std::fs::read(&zst_path).map_err(|e| Failure::new("output_missing", format!("compress exits 0 but `{zst_name}` cannot be read: {e}")))?;
+    let archive = std::fs::read(&zst_path).map_err(|e| Failure::new("output_missing", format!("compress exits 0 but `{zst_name_s}` cannot be read: {e}")))?;
     match refz::decompress(&archive, None, data.len() + 1) {
         Ok(d) => ensure!(d == data, "archive_wrong", "the reference decoder restores different data from the archive"),
         Err(e) => fail!("archive_invalid", "the archive written by the CLI is rejected by the reference decoder: {e}"),
     }
     // decompress
-    let restored_name = if case.explicit_out { "restored.out".to_string() } else { Path::new(&zst_name).file_stem().unwrap().to_string_lossy().to_string() };
-    let mut archive_name = zst_name.clone();
+    let restored_name: std::ffi::OsString = if case.explicit_out { "restored.out".into() } else { Path::new(&zst_name).file_stem().unwrap().to_os_string() };
+    let mut archive_name: std::ffi::OsString = zst_name.clone();
     match case.scenario {
         Scenario::GarbageArchive => {
             archive_name = "garbage.zst".into();
@@ -165,12 +181,12 @@ pub fn check(case: &Case, ctx: &mut CaseCtx) -> CaseResult {
         // default output name = archive stem = the original name: move the original away first
         std::fs::rename(&input, dir.join("original.keep")).ok();
     }
-    let mut dargs: Vec<&str> = vec!["decompress", &archive_name];
+    let mut dargs: Vec<&std::ffi::OsStr> = vec!["decompress".as_ref(), archive_name.as_os_str()];
     let explicit_restore = case.explicit_out || case.scenario != Scenario::RoundTrip;
     if explicit_restore {
-        dargs.push("restored.out");
+        dargs.push("restored.out".as_ref());
     }
-    let restored_path = dir.join(if explicit_restore { "restored.out".to_string() } else { restored_name });
+    let restored_path = dir.join(if explicit_restore { std::ffi::OsString::from("restored.out") } else { restored_name });
     if stale {
         std::fs::write(&restored_path, vec![0xDDu8; data.len() + 777]).map_err(|e| Failure::new("machinery", format!("{e}")))?;
         ctx.feat("paths:stale_longer_files_at_both_destinations");
@@ -196,9 +212,9 @@ pub fn check(case: &Case, ctx: &mut CaseCtx) -> CaseResult {
     ctx.feat_if(case.explicit_out, "paths:explicit");
     ctx.feat_if(!case.explicit_out, "paths:defaulted");
     ctx.nontrivial = !data.is_empty() && (case.level == Level::Absent || data.len() > 128 * 1024);
-    ctx.set_hash_bytes(&[&data, format!("{:?}{:?}{}{}", case.level, case.scenario, case.explicit_out, case.name % 6).as_bytes()]);
+    ctx.set_hash_bytes(&[&data, format!("{:?}{:?}{}{}", case.level, case.scenario, case.explicit_out, case.name % 8).as_bytes()]);
     if ctx.nontrivial && data.len() < 2000 {
-        ctx.sample = Some(json!({"file_bytes": data.len(), "name": name, "level": format!("{:?}", case.level), "explicit_paths": case.explicit_out}));
+        ctx.sample = Some(json!({"file_bytes": data.len(), "name": name_shown, "level": format!("{:?}", case.level), "explicit_paths": case.explicit_out}));
     }
     Ok(())
 }
@@ -213,11 +229,11 @@ fn case_strategy(tier: Tier) -> impl Strategy<Value = Case> {
         1 => Just(Scenario::GarbageArchive),
         2 => any::<u16>().prop_map(Scenario::TruncatedArchive),
     ];
-    (data_strategy(max), 0u8..=5, level, any::<bool>(), scenario, prop::bool::weighted(0.3)).prop_map(|(data, name, level, explicit_out, scenario, stale_outputs)| Case { data, name, level, explicit_out, scenario, stale_outputs })
+    (data_strategy(max), 0u8..=7, level, any::<bool>(), scenario, prop::bool::weighted(0.3)).prop_map(|(data, name, level, explicit_out, scenario, stale_outputs)| Case { data, name, level, explicit_out, scenario, stale_outputs })
 }
 
 pub fn run_check(eng: &Engine) {
-    eng.set_rule("the real ruzstd-cli binary in a private directory: file contents from the data generator (0 B .. 1 MiB quick / 8 MiB thorough; names with dots, spaces, no extension) x level option {absent, -l 0, -l 1, -l 2..4 (unimplemented), -l 9, -l 255} x explicit / defaulted output paths (optionally with stale, longer files already at both destinations) x scenarios {round trip, missing input, output directory missing, garbage archive, truncated archive}; oracle: implemented levels and no level given: exit 0, archive decodes with libzstd to the original, decompress exit 0, restored file identical; operations that cannot be carried out: non-zero exit status and not (panic AND an output file left behind); never exit 0 with a wrong or partial file; non-trivial = non-empty content and (no level given or content > 128 KiB); distinct by (content, options) hash");
+    eng.set_rule("the real ruzstd-cli binary in a private directory: file contents from the data generator (0 B .. 1 MiB quick / 8 MiB thorough; names with dots, spaces, no extension, non-ASCII UTF-8, bytes that are not UTF-8) x level option {absent, -l 0, -l 1, -l 2..4 (unimplemented), -l 9, -l 255} x explicit / defaulted output paths (optionally with stale, longer files already at both destinations) x scenarios {round trip, missing input, output directory missing, garbage archive, truncated archive}; oracle: implemented levels and no level given: exit 0, archive decodes with libzstd to the original, decompress exit 0, restored file identical; operations that cannot be carried out: non-zero exit status and not (panic AND an output file left behind); never exit 0 with a wrong or partial file; non-trivial = non-empty content and (no level given or content > 128 KiB); distinct by (content, options) hash");
     eng.assume("the sandbox runs as root, so permission bits cannot be used to make operations fail; a missing directory is used instead");
     let tier = eng.tier;
     let n = eng.tier.pick(2_500, 20_000);
